@@ -606,7 +606,7 @@ func checkMalformed(e *env, fn string, items []any) {
 				sig = "csv" + class
 			}
 			if d.name == "from_jq" {
-				if k := classifyRoundTrip("jq", want, got); k != "" {
+				if k := classifyRoundTrip("jq", want, got, t); k != "" {
 					sig = "jq:" + k
 				}
 			}
